@@ -243,6 +243,47 @@ def shrink(mod, tier, seed, n, sig, fallback, limit_s):
 # ------------------------------------------------------------------------------------------------
 
 
+def run_fuzz(prop_id, seed, cfg, stats, errors):
+    """Run fuzz/fuzz_target.py (atheris) in parallel campaigns and merge what they collected."""
+    deps = os.path.join(VERIF_DIR, ".deps")
+    try:
+        probe = subprocess.run([sys.executable, "-c", "import sys; sys.path.insert(0, %r); import atheris" % deps], capture_output=True)
+        available = probe.returncode == 0
+    except Exception:
+        available = False
+    if not available:
+        return {"available": False, "note": "atheris is not installed in /verif/.deps (run MANIFEST.setup_cmd); campaign skipped"}
+    outdir = os.path.join(sandbox.root(), "fuzz")
+    os.makedirs(outdir, exist_ok=True)
+    procs = []
+    for k in range(cfg.get("campaigns", 4)):
+        corpus = os.path.join(outdir, "corpus%d" % k)
+        os.makedirs(corpus, exist_ok=True)
+        statsfile = os.path.join(outdir, "stats%d.json" % k)
+        env = dict(os.environ)
+        env.pop("HOME", None)
+        cmd = [sys.executable, os.path.join(VERIF_DIR, "fuzz", "fuzz_target.py"), prop_id, statsfile, corpus,
+               "-runs=%d" % cfg["runs"], "-seed=%d" % (seed * 100 + k + 1), "-max_len=8192", "-len_control=0", "-print_final_stats=1"]
+        procs.append((k, statsfile, subprocess.Popen(cmd, env=env, cwd=VERIF_DIR, stdout=subprocess.PIPE, stderr=subprocess.PIPE)))
+    info = {"available": True, "campaigns": len(procs), "runs_per_campaign": cfg["runs"], "executions": 0, "cov": [], "corpus": []}
+    for k, statsfile, proc in procs:
+        so, se = proc.communicate()
+        text = se.decode(errors="replace")
+        if not os.path.exists(statsfile):
+            errors.append("fuzz campaign %d produced no stats (exit %s)\n%s" % (k, proc.returncode, text[-1500:]))
+            continue
+        with open(statsfile) as fp:
+            d = json.load(fp)
+        info["executions"] += d.get("fuzz_executions", 0)
+        stats.merge_json(d)
+        import re
+        m = re.findall(r"cov: (\d+) ft: (\d+) corp: (\d+)", text)
+        if m:
+            info["cov"].append(int(m[-1][0]))
+            info["corpus"].append(int(m[-1][2]))
+    return info
+
+
 def load_known(prop_id):
     path = os.path.join(VERIF_DIR, "known_findings.json")
     if not os.path.exists(path):
@@ -371,6 +412,12 @@ def run_check(prop_id, tier, seed, replay=None, shard=None, out=None, cases=None
         skipped += d.get("skipped", 0)
         stats.merge_json(d)
 
+    # -- coverage-guided campaign (thorough tier, properties that ask for it) -----------------------------
+    fuzz_info = None
+    fz = getattr(mod, "FUZZ", None)
+    if fz and tier == "thorough" and not os.environ.get("VERIF_NO_FUZZ"):
+        fuzz_info = run_fuzz(prop_id, seed, fz, stats, shard_fail)
+
     # -- triage ------------------------------------------------------------------------------
     for sig, info in stats.sigs.items():
         if sig in known_sigs:
@@ -433,6 +480,8 @@ def run_check(prop_id, tier, seed, replay=None, shard=None, out=None, cases=None
         "wall_s": round(time.time() - t_start, 2),
         "violations": len(violations),
     }
+    if fuzz_info:
+        evidence["coverage"]["atheris"] = fuzz_info
     if exhaustive and getattr(mod, "EXHAUSTIVE_NOTE", None):
         evidence["coverage"]["exhaustive_note"] = mod.EXHAUSTIVE_NOTE
     os.makedirs(os.path.join(VERIF_DIR, "evidence"), exist_ok=True)
